@@ -3,10 +3,10 @@
 Three request families against scenarios loaded through the real configuration loader:
  * GetMap (WMS 1.1.1 / 1.3.0, six client SRS, any bbox / size) on cached, cascaded, tile-source, cache-of-cache,
    restricted-supported_srs and coverage-limited layers against the RAMP upstream (colour = function of ground position
-   only); an independent pyproj geo-oracle computes, per output pixel, the interval of colours of its +-1.5 pixel ground
-   neighbourhood and the mean displacement of the picture.
+   only); an independent pyproj geo-oracle computes, per output pixel, the interval of colours of its ground
+   neighbourhood and, per image, the mean displacement of the picture along both canonical axes.
  * exact-tile GetMap (bbox = one stored tile, size = tile size, same SRS) against the NOISE upstream: pixel-identical.
- * GetFeatureInfo (WMS 1.1.1 X/Y, 1.3.0 I/J, WMTS KVP I/J): the upstream query's ground point is compared with the
+ * GetFeatureInfo (WMS 1.1.1 X/Y, 1.3.0 I/J, WMTS KVP and REST I/J): the upstream query's ground point is compared with the
    clicked one in client pixels.
 """
 import math
@@ -22,31 +22,47 @@ from vlib import core, upstream, scenario, geo
 PID = 'C01'
 LEVEL = 'exploration'
 BUDGET_S = {'quick': 42, 'thorough': 640}
-FLOORS = {'quick': {'scenarios': 1, 'getmap_requests': 1, 'strong_pixels_judged': 1000000, 'weak_pixels': 1,
-                    'exact_tile_requests': 1, 'featureinfo_requests': 1, 'reprojected_requests': 1, 'v130_requests': 1},
-          'thorough': {'scenarios': 1, 'getmap_requests': 1, 'strong_pixels_judged': 1000000, 'weak_pixels': 1,
-                       'exact_tile_requests': 1, 'featureinfo_requests': 1, 'reprojected_requests': 1,
-                       'v130_requests': 1}}
+FLOORS = {'quick': {'scenarios': 30, 'getmap_requests': 200, 'strong_pixels_judged': 6000000, 'weak_pixels': 5000,
+                    'exact_tile_requests': 45, 'exact_pixels_judged': 45000, 'featureinfo_requests': 90,
+                    'featureinfo_regridded': 50, 'wmts_featureinfo_requests': 25, 'reprojected_requests': 100,
+                    'v130_requests': 110, 'mean_shift_judged': 300},
+          'thorough': {'scenarios': 600, 'getmap_requests': 4000, 'strong_pixels_judged': 120000000, 'weak_pixels': 500000,
+                       'exact_tile_requests': 900, 'exact_pixels_judged': 900000, 'featureinfo_requests': 1800,
+                       'featureinfo_regridded': 1000, 'wmts_featureinfo_requests': 500, 'reprojected_requests': 2000,
+                       'v130_requests': 2200, 'mean_shift_judged': 6000}}
 RULE = ("case = one generated scenario (shape cached_wms | cascaded_wms | tile_src | cache_of_cache | restricted_srs | "
         "coverage x grid SRS 3857/4326/25832 x origin x tile size x f2/custom ladder x meta size/buffer x backend x "
-        "upstream WMS version x resampling) driven by 8-12 GetMap requests and 4-6 GetFeatureInfo requests, or one NOISE "
+        "upstream WMS version x resampling) driven by 8-12 GetMap requests and 1-2 WMS (+2 WMTS) GetFeatureInfo requests of 3-4 "
+        "clicks each, or one NOISE "
         "scenario driven by exact-tile requests. evaluations = responses judged by an oracle (GetMap images, exact tiles, "
         "feature-info forwards); distinct = (scenario shape, request SRS, scale class, position class, WMS version); "
         "non-trivial = the image had at least one strong pixel (gradient >= 0.5 level/px) inside the layer extent / the "
         "exact tile had judged pixels / the feature-info request was forwarded upstream")
 ASSUMPTIONS = [
     "the RAMP upstream renders colour as a function of the ground position of the pixel CENTRE of the upstream request "
-    "(pyproj, always_xy); its scale depends on the resolution octave of the upstream request only",
-    "a pixel is judged against the colour range of its +-1.5 px ground neighbourhood (scaled by source_res/output_res "
-    "when the output is finer than the stored data) widened by 1.0 level of quantisation slack; up to 0.5% of the judged "
-    "pixels of an image may fall outside (borders); the mean displacement per canonical axis must be <= 1.5 px + 0.1",
-    "pixels closer than 1.5 px + resampling kernel radius (in the coarsest pixel size of the chain) to the edge of the "
-    "layer / grid / coverage extent are don't-care; outside of it a pixel must be background or correct content",
+    "(pyproj, always_xy) in the canonical frame (SRS of the cache grid that is fed by the upstream / of the source); its "
+    "scale depends on the resolution octave of the upstream request only (about 4 levels per upstream pixel)",
+    "pixel test: a pixel must lie in the colour range of its +-2.5 px ground neighbourhood (1.5 px of the property + 1.0 px "
+    "slack, because mesh error < 1 px, nearest-neighbour 0.5 px and sub-image placement < 1 px are each inside MapProxy's "
+    "own budget but stack up locally), scaled by max(1, source_res/output_res), widened by 1.0 level of rounding slack and "
+    "1.0 level per bilinear/bicubic resampling stage (Pillow truncates); up to 0.5% + 50 judged pixels of an image may fall "
+    "outside; pixels explained by another rendered octave are accepted in cache-of-cache scenarios only",
+    "mean test: the mean displacement of an image along each canonical axis must be <= 1.5 px (scaled) + 0.1 + truncation bias",
+    "pixels closer than 2.5 px + resampling kernel radius (in the coarsest pixel size of the chain) to the edge of the "
+    "intersection of grid / coverage extents are don't-care; outside of it a pixel must be background (transparent, "
+    "BGCOLOR, or white for opaque caches), correct content, or a blend at the boundary between the two",
+    "requests whose pixel->ground mapping (to any SRS of the chain) bends more than 0.75 px across 100 px are not judged: "
+    "MapProxy never verifies mesh quads below 50 px (documented: at most one quad per 50 px)",
     "resolution ladders keep every level within +-0.3 octaves of s0*2^k (sqrt2 ladders would put levels on an octave "
-    "boundary of the RAMP encoding and are not generated)",
+    "boundary of the RAMP encoding and are not generated); with a source restricted to another SRS the ladder is factor 2 "
+    "and s0 is calibrated to what an upstream request for level 0 measures",
+    "requests coarser than 3x the coarsest level are not generated (max_shrink_factor 4 answers blank by design)",
+    "exact tiles: pixels less than one pixel inside the grid bbox are not judged; a tile that MapProxy built from an "
+    "off-grid (border-clipped) upstream request only has to match within one pixel",
     "feature info: pixel index <-> ground of the pixel centre on both sides; bound 1.0 client px, plus half an upstream "
-    "pixel (in client px) when MapProxy re-gridded the query for an unsupported SRS",
-    "lossless png, paletted: false; mid-latitude areas (central Europe)",
+    "pixel (in client px) when MapProxy re-gridded the query for an unsupported SRS; WMTS feature info only on grids with "
+    "origin ul (rows count from the top of the grid bbox)",
+    "lossless png, paletted: false; mid-latitude areas (central Europe), requested area at most 1.6 x the layer extent",
 ]
 
 SRS_OFFERED = ['EPSG:3857', 'EPSG:900913', 'EPSG:4326', 'EPSG:25832', 'EPSG:3035', 'CRS:84']
@@ -74,6 +90,7 @@ GAIN = 4.0
 
 def ramp_scale(s0, k):
     return s0 * 2.0 ** k / GAIN
+
 
 RLOCK = threading.Lock()
 DEBUG = bool(__import__('os').environ.get('C01_DEBUG'))
@@ -243,7 +260,8 @@ def grid_conf(g):
 def build_conf(spec, host='ramp', tiles_host='rtiles'):
     conf = scenario.base_conf(image={'resampling_method': spec['resampling']})
     conf['services'] = {'wms': {'srs': list(SRS_OFFERED), 'image_formats': ['image/png'], 'md': {'title': 'c01'}},
-                        'wmts': {'restful': True, 'kvp': True}}
+                        'wmts': {'restful': True, 'kvp': True,
+                                 'featureinfo_formats': [{'mimetype': 'text/plain', 'suffix': 'text'}]}}
     for name, g in spec['grids'].items():
         conf['grids'][name] = grid_conf(g)
     if spec['shape'] == 'tile_src':
@@ -426,13 +444,13 @@ def gen_bbox(rng, spec, srs, scale_class, pos_class, size, aniso=1.0):
         lo = ladder[z + 1] if z + 1 < len(ladder) else ladder[z] / 2
         r = math.exp(rng.uniform(math.log(lo * 1.03), math.log(ladder[z] * 0.97)))
     elif scale_class == 'finer':
-        r = ladder[-1] / rng.uniform(1.2, 4.0)
+        r = ladder[-1] / math.exp(rng.uniform(math.log(1.2), math.log(14.0)))
     else:
         r = ladder[0] * rng.uniform(1.15, 3.0)
     Ew, Eh = E[2] - E[0], E[3] - E[1]
-    # keep the requested area moderate (at most twice the layer extent): distortion stays mid-latitude / regional
-    w = max(16, min(w, int(2.0 * Ew / r)))
-    h = max(16, min(h, int(2.0 * Eh / r)))
+    # keep the requested area moderate (at most 1.6 x the layer extent): distortion stays mid-latitude / regional
+    w = max(16, min(w, int(1.6 * Ew / r)))
+    h = max(16, min(h, int(1.6 * Eh / r)))
     if w == h:
         h += 3
     bw, bh = w * r, h * r
@@ -511,7 +529,29 @@ def gen_requests(rng, spec, n_map, n_fi):
             reqs.append({'kind': 'fi', 'version': version, 'srs': srs, 'bbox': list(bbox), 'size': [w, h],
                          'clicks': [list(c) for c in rng.sample(clicks, 4)], 'scale_class': scale_class,
                          'pos_class': pos_class})
+        lg = spec['grids'][spec['layer_grid']]
+        if lg['origin'] in ('ul', 'nw') and spec['cached']:
+            # WMTS GetFeatureInfo (KVP and REST): rows count from the top, like the grid itself
+            for flavour in ('kvp', 'rest'):
+                z = rng.randrange(len(lg['res']))
+                nx, ny = grid_size(lg, z)
+                col, row = rng.randrange(nx), rng.randrange(ny)
+                tw, th = lg['tile_size']
+                clicks = [(0, 0), (tw - 1, th - 1), (tw // 2, th // 2), (rng.randrange(tw), rng.randrange(th))]
+                reqs.append({'kind': 'wfi', 'flavour': flavour, 'version': 'wmts-' + flavour, 'srs': lg['srs'],
+                             'tile': [col, row, z], 'bbox': list(tile_rect(lg, col, row, z)), 'size': [tw, th],
+                             'clicks': [list(c) for c in rng.sample(clicks, 3)], 'scale_class': 'tile',
+                             'pos_class': 'edge' if col in (0, nx - 1) or row in (0, ny - 1) else 'mid'})
     return reqs
+
+
+def wmts_fi_url(spec, req, click):
+    col, row, z = req['tile']
+    if req['flavour'] == 'kvp':
+        return ('/service?SERVICE=WMTS&REQUEST=GetFeatureInfo&VERSION=1.0.0&LAYER=l&STYLE=default&TILEMATRIXSET=%s'
+                '&TILEMATRIX=%02d&TILEROW=%d&TILECOL=%d&FORMAT=image/png&INFOFORMAT=text/plain&I=%d&J=%d' % (
+                    spec['layer_grid'], z, row, col, click[0], click[1]))
+    return '/wmts/l/%s/%02d/%d/%d/%d/%d.text' % (spec['layer_grid'], z, col, row, click[0], click[1])
 
 
 def map_url(req, extra=''):
@@ -861,10 +901,9 @@ def judge_map(run, spec, req, resp, ramp, case, n_up_before):
     return r
 
 
-def judge_fi(run, spec, req, click, resp, infos, case):
+def judge_fi(run, spec, req, click, resp, infos, case, url):
     cls = (spec['shape'], req['srs'], 'fi_' + req['scale_class'], req['pos_class'], req['version'])
     mech = mech_base(spec, req)
-    url = fi_url(req, click)
     bbox, size, srs = tuple(req['bbox']), tuple(req['size']), req['srs']
 
     def viol(clause, detail, **kw):
@@ -906,6 +945,8 @@ def judge_fi(run, spec, req, click, resp, infos, case):
         return
     u = infos[0]
     run.hit('featureinfo_requests')
+    if req['kind'] == 'wfi':
+        run.hit('wmts_featureinfo_requests')
     want_names = ['i', 'j'] if spec['up_version'] == '1.3.0' else ['x', 'y']
     if u['names'] != want_names or u['version'] != spec['up_version']:
         run.judge(cls, nontrivial=True)
@@ -1113,7 +1154,8 @@ def run_ramp(run, case, spec, reqs, d):
         if run.out_of_time() and not run.replaying:
             run.count('requests_skipped_for_budget')
             break
-        one = dict(case, requests=[req], history=[r for r in reqs[:reqs.index(req)] if r['kind'] == 'map'])
+        one = dict(case, requests=[req], history=list(case.get('history') or []) +
+                   [r for r in reqs[:reqs.index(req)] if r['kind'] == 'map'])
         if req['kind'] == 'map':
             n0 = up.n
             try:
@@ -1131,14 +1173,14 @@ def run_ramp(run, case, spec, reqs, d):
         else:
             for click in req['clicks']:
                 n0 = len(ramp.infos)
+                url = wmts_fi_url(spec, req, click) if req['kind'] == 'wfi' else fi_url(req, click)
                 try:
-                    resp = sc.get(fi_url(req, click))
+                    resp = sc.get(url)
                 except Exception as ex:
                     run.violation(dict(mech_base(spec, req), clause='exception', exc=type(ex).__name__), one,
-                                  'GetFeatureInfo %s raised %r\n%s' % (fi_url(req, click), ex,
-                                                                       traceback.format_exc()[-1500:]))
+                                  'GetFeatureInfo %s raised %r\n%s' % (url, ex, traceback.format_exc()[-1500:]))
                     continue
-                judge_fi(run, spec, req, click, resp, ramp.infos[n0:], one)
+                judge_fi(run, spec, req, click, resp, ramp.infos[n0:], one, url)
     if ramp.errors:
         run.count('upstream_handler_errors', len(ramp.errors))
         run.count('upstream_handler_error:' + ramp.errors[0][-80:])
